@@ -902,7 +902,7 @@ pub fn gen(rng: &mut Rng) -> Script {
     let pipe = pipeline(depth, c, c);
     let leaf = depth - 1;
     let finish = |rng: &mut Rng| if rng.chance(1, 6) { Step::Fail } else { Step::Finish(rng.range(1, 999)) };
-    match rng.weighted(&[40, 22, 10, 10, 8, 6, 4]) {
+    match rng.weighted(&[38, 20, 10, 10, 8, 6, 8]) {
         0 => {
             // abandon at every stage on the way down: before transmission, in flight at depth 1, 2, 3
             let stage = rng.range(0, pipe.len() as u64) as usize;
@@ -988,10 +988,34 @@ pub fn gen(rng: &mut Rng) -> Script {
         }
         _ => {
             // an end of a link is dropped: connection failures travel instead (no cascade owed)
-            let stage = rng.range(0, pipe.len() as u64) as usize;
-            ops.extend(pipe[..stage].iter().cloned());
             let i = rng.below(depth as u64) as usize;
-            ops.push(if rng.chance(1, 2) { Op::DropD(i) } else { Op::DropS(i) });
+            match rng.below(3) {
+                0 => {
+                    // ... while the request sits unread in link i
+                    let upto = pipe.iter().position(|o| *o == Op::PollD(i)).unwrap();
+                    ops.extend(pipe[..=upto].iter().cloned());
+                }
+                1 => {
+                    // ... while a cancellation sits unread in link i
+                    ops.push(Op::Settle);
+                    ops.push(Op::HDrop(c));
+                    for j in 0..i {
+                        ops.push(Op::PollD(j));
+                        ops.push(Op::PollR(j));
+                        ops.push(Op::HandlerPoll(j, c, Step::Run));
+                    }
+                    ops.push(Op::PollD(i));
+                }
+                _ => {
+                    let stage = rng.range(0, pipe.len() as u64) as usize;
+                    ops.extend(pipe[..stage].iter().cloned());
+                }
+            }
+            ops.push(if rng.chance(2, 3) { Op::DropD(i) } else { Op::DropS(i) });
+            if rng.chance(1, 2) {
+                ops.push(Op::PollR(i));
+                ops.push(Op::HandlerPoll(i, c, Step::Run));
+            }
             ops.push(Op::Settle);
             ops.push(Op::HDrop(c));
             ops.push(Op::Settle);
